@@ -661,6 +661,11 @@ fn judge(cell: &Cell, index: usize, context: usize, w: &mut WorkerCtx)
 fn operand_class(what: &str) -> &'static str
 {
 	let src = what.rsplit("<- ").next().unwrap_or(what);
+	// the one pair of primitive types that share a representation
+	if what == "char8 <- u8 variable" || what == "u8 <- char8 variable"
+	{
+		return "u8 and char8";
+	}
 	if src.contains("array") || src.contains("struct") || src.contains("word")
 	{
 		"aggregate operand"
